@@ -197,7 +197,7 @@ def leaves_with_problems(s):
 def pick_sessions(tier, seed, wd):
     quick = tier == "quick"
     s2, r2 = tlc_sessions(2, wd, "s2")
-    s3, r3 = tlc_sessions(3 if quick else 4, wd, "s3")
+    s3, r3 = tlc_sessions(3, wd, "s3")      # (4 events exhaustively no longer finishes with re-open / save / three layouts: deeper ones are simulated)
     rng = random.Random("%d/sessions" % seed)
     interesting = [s for s in s2 if any(len(s["disk"][f]["inc"]) or s["disk"][f]["faulty"] for f in FILES) or True]
     rng.shuffle(interesting)
@@ -205,7 +205,7 @@ def pick_sessions(tier, seed, wd):
     rng.shuffle(longer)
     # deeper sessions by seeded simulation (5-6 events): long enough for open / change / re-open / change histories of one document
     cfg = ('SPECIFICATION GSpec\nCONSTANTS\n  %s\n  MaxEvents = 6\n  Next1 <- Ring\nINVARIANT EmitSession\nCHECK_DEADLOCK FALSE\n' % FILE_CFG)
-    rs = common.run_tlc("SessionGen.tla", cfg, os.path.join(wd, "sim"), simulate=(400 if quick else 6000), depth=7, seed=seed, timeout=1800)
+    rs = common.run_tlc("SessionGen.tla", cfg, os.path.join(wd, "sim"), simulate=(400 if quick else 12000), depth=7, seed=seed, timeout=1800)
     common.tlc_must(rs, "SessionGen simulation")
     deep = {}
     for x in rs.records:
@@ -226,7 +226,7 @@ def pick_sessions(tier, seed, wd):
                 return True
         return False
     deep.sort(key=lambda s: 0 if reopened_and_changed(s) else 1)
-    longer = deep[:(150 if quick else 3000)] + longer
+    longer = deep[:(150 if quick else 6000)] + longer
     n2, n3 = (500, 700) if quick else (6000, 14000)
     stats = {"states": r2.distinct + r3.distinct + rs.distinct, "transitions": r2.generated + r3.generated + rs.generated,
              "sessions_enumerated": len(s2) + len(s3), "deeper_sessions_simulated": len(deep)}
